@@ -92,6 +92,31 @@ PhhOK(t, Pr) ==
            /\ (~fa.status => ~fb.status) \/ Report(t, 0, "twin-state", Pr.kind, {"status"}, {}, <<fa.status, fb.status>>)
            /\ (~fa.status => fa.hole = fb.hole) \/ Report(t, 0, "twin-cards", Pr.kind, {"hole"}, {}, <<fa.hole, fb.hole>>)
 
+\* ACPC / Pluribus: the tokenised protocol lines produced by the library against the observation functions of the log
+FlatHoles(m) == [m EXCEPT !.holes = [i \in DOMAIN @ |-> FlattenSeq(@[i])]]
+AcpcOK(t, Pr) ==
+  LET full == FullLog(Pr.A)
+      log == IF Pr.cut > 0 THEN SubSeq(full, 1, Pr.cut) ELSE full
+  IN /\ \A v \in DOMAIN Pr.views :
+          LET want == LET ms == AcpcMessages(log, Pr.n, Pr.views[v].seat, Pr.nolimit) IN [j \in DOMAIN ms |-> FlatHoles(ms[j])]
+              got == Pr.views[v].msgs
+          IN want = got \/ Report(t, 0, "twin-tokens", "acpc", {}, {}, <<"seat", Pr.views[v].seat, "first difference", FirstDiff(want, got)>>)
+     /\ Pr.pluribus.present =>
+          LET want == FlatHoles(PluribusState(full, Pr.n))
+              fin == Final(Pr.A)
+          IN /\ [acts |-> Pr.pluribus.acts, holes |-> Pr.pluribus.holes, boards |-> Pr.pluribus.boards] = want
+                  \/ Report(t, 0, "twin-tokens", "pluribus", {}, {}, <<"spec", want, "code", Pr.pluribus>>)
+             /\ Pr.pluribus.payoffs = fin.payoffs \/ Report(t, 0, "twin-payoffs", "pluribus", {}, {}, <<fin.payoffs, Pr.pluribus.payoffs>>)
+     /\ Pr.parsed =>
+          LET bet(a) == SelectSeq(a, LAMBDA x : x[1] \in {"f", "cc", "cbr"})
+              a == bet(PhhActions(full))
+              b == bet(PhhActions(FullLog(Pr.B)))
+              fa == Final(Pr.A)
+              fb == Final(Pr.B)
+          IN /\ a = b \/ Report(t, 0, "twin-actions", "acpc-parse", {}, {}, <<"first difference", FirstDiff(a, b)>>)
+             /\ fa.stacks = fb.stacks \/ Report(t, 0, "twin-stacks", "acpc-parse", {}, {}, <<fa.stacks, fb.stacks>>)
+             /\ Flat(fa.board) = Flat(fb.board) \/ Report(t, 0, "twin-cards", "acpc-parse", {"board"}, {}, <<fa.board, fb.board>>)
+
 TwinOK(t, Pr) ==
   /\ FlagsOK(t, Pr)
   /\ CASE Pr.kind = "auto" -> LogsOK(t, Pr) /\ SyncOK(t, Pr)
@@ -99,6 +124,7 @@ TwinOK(t, Pr) ==
        [] Pr.kind = "copy" -> SyncOK(t, Pr)
        [] Pr.kind = "show" -> PayoffsOK(t, Pr)
        [] Pr.kind = "phh" -> PhhOK(t, Pr)
+       [] Pr.kind = "acpc" -> AcpcOK(t, Pr)
        [] OTHER -> Report(t, 0, "twin-unknown-kind", Pr.kind, {}, {}, <<>>)
 
 Init ==
